@@ -6,7 +6,7 @@
    on the parser (parser_stable, parser_fixes_supported, parser_keeps_suffix,
    parser_accepts_suffixed); the check
    tests each of them on every answer of the real parser it logs. *)
-From Encoding Require Import Model Lemmas.
+From Encoding Require Import Model Lemmas LemmasParser.
 
 (* strings.HasSuffix as modelled is "s ends with suf" *)
 Theorem has_suffix_means_suffix suf s : has_suffix suf s = true <-> exists p, s = p ++ suf.
@@ -79,7 +79,7 @@ Theorem resp_roundtrip_preset_partial pmt errmt :
   forall accept ct preset k hdr,
     response_encoder pmt errmt accept ct preset = (Some k, hdr) ->
     preset_ok pmt k preset -> response_decoder pmt hdr = k.
-Proof. intros Hs Hf Hk Ha accept ct preset k hdr. exact (roundtrip_preset pmt errmt Hs Hf Hk Ha accept ct preset k hdr). Qed.
+Proof. intros Hs Hf Hk Ha accept ct preset k hdr He Hok. exact (roundtrip_preset pmt errmt Hs Hf Hk accept ct preset k hdr He Hok (fun _ => Ha)). Qed.
 Print Assumptions resp_roundtrip_preset_partial.
 
 (* The former finding preset-suffix-mismatch is repaired (SetContentType keeps an agreeing
@@ -87,7 +87,7 @@ Print Assumptions resp_roundtrip_preset_partial.
    statement that used to be refuted now holds: any pre-set header without parameters -
    with or without a '+' suffix, agreeing or not - round trips. *)
 Theorem resp_preset_suffix_roundtrip pmt errmt :
-  parser_stable pmt -> parser_fixes_supported pmt -> parser_keeps_suffix pmt -> parser_accepts_suffixed pmt ->
+  parser_stable pmt -> parser_fixes_supported pmt -> parser_keeps_suffix pmt ->
   forall accept ct preset k hdr,
     contains_semicolon preset = false ->
     response_encoder pmt errmt accept ct preset = (Some k, hdr) -> response_decoder pmt hdr = k.
@@ -236,6 +236,64 @@ Proof.
 Qed.
 Print Assumptions status_before_content_type_refuted.
 
+(* ---- the parser hypotheses discharged: Go's mime.ParseMediaType (media type part) modelled;
+        only the parameter parser stays an oracle [params_ok] ---- *)
+
+(* what the modelled parser returns: the text in front of the first ';', lower-cased and
+   trimmed, when that is token or token/token; such a result is free of ';' and parses to itself *)
+Theorem std_media_type_normal_form base m :
+  go_media_type base = Some m ->
+  m = trim_space (map lower base) /\ media_type_ok m = true /\ contains_semicolon m = false /\ go_media_type m = Some m.
+Proof.
+  intro H. split; [|split; [|split; [|exact (go_media_type_fix base m H)]]];
+    unfold go_media_type in H; destruct (media_type_ok (trim_space (map lower base))) eqn:OK; try discriminate;
+    injection H as <-; [reflexivity|exact OK|exact (type_chars_no_semi _ (media_type_ok_chars _ OK))].
+Qed.
+Print Assumptions std_media_type_normal_form.
+
+(* for every parameter-validity oracle the modelled parser satisfies three of the four
+   hypotheses (the fourth, parser_accepts_suffixed, is only needed for pre-set headers with
+   parameters and stays a run-time-tested hypothesis) *)
+Theorem std_parser_satisfies_hypotheses params_ok :
+  parser_stable (std_pmt params_ok) /\ parser_fixes_supported (std_pmt params_ok) /\ parser_keeps_suffix (std_pmt params_ok).
+Proof. exact (conj (std_pmt_stable params_ok) (conj (std_pmt_fixes_supported params_ok) (std_pmt_keeps_suffix params_ok))). Qed.
+Print Assumptions std_parser_satisfies_hypotheses.
+
+(* hence, with NO hypothesis on the parser: responses with nothing pre-set, or with any pre-set
+   header without parameters, announce the format they are written in *)
+Theorem std_resp_roundtrip params_ok errmt accept ct preset k hdr :
+  contains_semicolon preset = false ->
+  response_encoder (std_pmt params_ok) errmt accept ct preset = (Some k, hdr) ->
+  response_decoder (std_pmt params_ok) hdr = k.
+Proof.
+  exact (roundtrip_preset_no_params (std_pmt params_ok) errmt (std_pmt_stable params_ok)
+           (std_pmt_fixes_supported params_ok) (std_pmt_keeps_suffix params_ok) accept ct preset k hdr).
+Qed.
+Print Assumptions std_resp_roundtrip.
+
+(* ... error responses and the muxer's 404 carry their status and a Content-Type that selects
+   the decoder of the body's format *)
+Theorem std_error_paths params_ok errmt cenc accept :
+  (forall ct g k b w',
+     error_encoder (std_pmt params_ok) errmt cenc accept ct (w_new []) g = (Some k, b, w') ->
+     exists hdr, sent w' = Some (http_status (error_response g), hdr) /\ response_decoder (std_pmt params_ok) hdr = k) /\
+  (forall k b w',
+     mux_not_found (std_pmt params_ok) errmt cenc accept = (Some k, b, w') ->
+     exists hdr, sent w' = Some (404, hdr) /\ response_decoder (std_pmt params_ok) hdr = k
+                 /\ b = encode cenc k (VStruct 0) /\ (k = KText -> b = None)).
+Proof.
+  split.
+  - intros ct g. exact (error_roundtrip (std_pmt params_ok) errmt cenc (std_pmt_stable params_ok) (std_pmt_fixes_supported params_ok) accept ct g).
+  - exact (not_found_roundtrip (std_pmt params_ok) errmt cenc (std_pmt_stable params_ok) (std_pmt_fixes_supported params_ok) accept).
+Qed.
+Print Assumptions std_error_paths.
+
+(* ... and the request encoder's default header is decoded as JSON *)
+Theorem std_request_roundtrip params_ok :
+  request_decoder (std_pmt params_ok) (request_encoder_header []) = RDec request_encoder_kind.
+Proof. exact (request_default_json (std_pmt params_ok) (std_pmt_fixes_supported params_ok)). Qed.
+Print Assumptions std_request_roundtrip.
+
 (* ---- non-vacuity ---- *)
 
 (* the hypotheses on the parser are satisfiable (by a parser that cuts parameters), and so
@@ -285,4 +343,17 @@ Example request_examples :
   request_decoder cut_parser (bs "application/vnd.x+json") = RUnsupported (bs "application/vnd.x+json")
   /\ request_decoder cut_parser text_plain = RDec KText
   /\ http_status (unsupported_error (bs "application/vnd.x+json")) = 415.
+Proof. vm_compute. repeat split. Qed.
+
+(* the modelled parser on a few values: case and blanks normalised, parameters cut, malformed
+   types refused, a refused parameter part refuses the whole value *)
+Example std_parser_examples :
+  std_pmt (fun _ => true) (bs "Application/XML ; q=0.9") = Some app_xml
+  /\ std_pmt (fun _ => true) (bs " text/plain") = Some text_plain
+  /\ std_pmt (fun _ => true) (bs "garbage") = Some (bs "garbage")
+  /\ std_pmt (fun _ => true) (bs "a/b/c") = None
+  /\ std_pmt (fun _ => true) (bs "a/") = None
+  /\ std_pmt (fun _ => true) (bs "application/xml, application/json") = None
+  /\ std_pmt (fun _ => false) (bs "application/json; =x") = None
+  /\ go_media_type (before_semi (bs "application/json; =x")) = Some app_json.
 Proof. vm_compute. repeat split. Qed.
